@@ -1,14 +1,15 @@
 package main
 
 import (
-	"bufio"
 	"bytes"
 	"fmt"
 
-	"filippo.io/age/internal/format"
+	"filippo.io/age/internal/bech32"
+	"filippo.io/age/plugin"
 )
 
 func main() {
-	h, _, err := format.Parse(bufio.NewReader(bytes.NewReader([]byte("age-encryption.org/v1\n--- AAAAAAAAAAAAAAAAAAAAAAAAAAAAAAAAAAAAAAAAAAA\n"))))
-	fmt.Println(h, err)
+	s, _ := bech32.Encode("age", bytes.Repeat([]byte{7}, 32))
+	fmt.Println(s)
+	fmt.Println(plugin.EncodeIdentity("yubikey", nil))
 }
